@@ -6,6 +6,7 @@ package main
 
 import (
 	"go/constant"
+	"go/token"
 	"go/types"
 
 	"golang.org/x/tools/go/ssa"
@@ -484,3 +485,400 @@ func runRecoverMust(c *Ctx, r *RuleRun) {
 }
 
 func constantInt(n int64) constant.Value { return constant.MakeInt64(n) }
+
+func init() {
+	register(&Rule{ID: "RECOVER.REPLAY", Engine: "E-PATH", Min: 4,
+		Desc: "wal recovery selects every older *.log file that is a regular file, returns early only when there is none, and puts every entry it reads both into the memtable and into the new wal",
+		Run:  runRecoverReplay})
+	register(&Rule{ID: "LOOP.PROGRESS", Engine: "E-DEP", Min: 20,
+		Desc: "every loop can make progress: its condition depends on something the loop changes (a loop-carried value with an in-loop update, a location stored to in the loop) or contains/is followed by a call",
+		Run:  runLoopProgress})
+	register(&Rule{ID: "LIVE.STOPONCE", Engine: "E-SIB", Min: 2,
+		Desc: "each watermark the oracle owns is stopped exactly once when the oracle is stopped (a second Stop would block forever on the consumer that has already left)",
+		Run:  runLiveStopOnce})
+	register(&Rule{ID: "CONF.KEEPALL", Engine: "E-PATH", Min: 2,
+		Desc: "cleaning up the committed-transaction list keeps every record above the read watermark: the loop visits the whole list and appends each record unless its timestamp is at or below the watermark",
+		Run:  runConfKeepAll})
+}
+
+func runRecoverReplay(c *Ctx, r *RuleRun) {
+	p := c.P
+	rec := p.FnOr("", "memtable", "recover")
+	setFn := p.Fn("pkg/skiplist", "SkipList", "Set")
+	walWrite := p.Fn("wal", "WAL", "Write")
+	walRead := p.Fn("wal", "WAL", "Read")
+	cmpVer := p.Fn("wal", "", "CompareVersion")
+	if rec == nil || setFn == nil || walWrite == nil || walRead == nil {
+		r.Undecided("-", "memtable.recover / SkipList.Set / WAL.Write / WAL.Read", "", "anchors not found")
+		return
+	}
+	fn := p.FnName(rec)
+	// 1. the file filter
+	n := 0
+	eachInstr(rec, func(ins ssa.Instruction) {
+		cl, ok := ins.(*ssa.Call)
+		if !ok || !inLoop(cl.Block()) {
+			return
+		}
+		bi, ok := cl.Call.Value.(*ssa.Builtin)
+		if !ok || bi.Name() != "append" {
+			return
+		}
+		sl, ok := cl.Type().Underlying().(*types.Slice)
+		if !ok || !isStringType(sl.Elem()) {
+			return
+		}
+		n++
+		dirOnly := hasFact(cl, func(cm Cmp) bool {
+			if cm.Y != nil || cm.Op != "true" {
+				return false
+			}
+			ci, ok := cm.X.(ssa.CallInstruction)
+			return ok && ci.Common().IsInvoke() && ci.Common().Method.Name() == "IsDir"
+		})
+		isLog := hasFact(cl, func(cm Cmp) bool {
+			if cm.Y == nil || cm.Op != "==" {
+				return false
+			}
+			s, ok := constString(cm.Y)
+			return ok && s == ".log"
+		})
+		older := cmpVer == nil || hasFact(cl, func(cm Cmp) bool {
+			if cm.Y == nil || cm.Op != "<" {
+				return false
+			}
+			k, isK := constInt(cm.Y)
+			return isK && k == 0 && callTo(p, cm.X, cmpVer) != nil
+		})
+		wrongExt := hasFact(cl, func(cm Cmp) bool {
+			if cm.Y == nil || cm.Op != "!=" {
+				return false
+			}
+			s, ok := constString(cm.Y)
+			return ok && s == ".log"
+		})
+		r.Check(!dirOnly && isLog && older && !wrongExt, fn, "older regular *.log files are collected", p.Pos(instrPos(cl)), "!IsDir() && Ext == \".log\" && CompareVersion(version, current) < 0",
+			"the wal files to replay are not selected by `regular file, extension .log, older than the current wal`: logs of the previous run are skipped at Open and the commits in them are lost")
+	})
+	if n == 0 {
+		r.Undecided(fn, "older regular *.log files are collected", "", "no collection of file names found")
+	}
+	// 2. early return only without files
+	var fileLoop *natLoop
+	for _, lp := range naturalLoops(rec) {
+		lp := lp
+		for b := range lp.body {
+			for _, ins := range b.Instrs {
+				if cl, ok := ins.(*ssa.Call); ok && cl.Call.StaticCallee() == walRead {
+					if fileLoop == nil || lp.header.Dominates(fileLoop.header) {
+						fileLoop = &lp
+					}
+				}
+			}
+		}
+	}
+	if fileLoop == nil {
+		r.Undecided(fn, "replay loop", "", "no loop that reads wal files")
+		return
+	}
+	m := 0
+	eachInstr(rec, func(ins ssa.Instruction) {
+		ret, ok := ins.(*ssa.Return)
+		if !ok || ret.Block().Comment == "recover" || fileLoop.header.Dominates(ret.Block()) {
+			return
+		}
+		m++
+		empty := hasFact(ret, func(cm Cmp) bool {
+			if cm.Y == nil || cm.Op != "==" {
+				return false
+			}
+			k, isK := constInt(cm.Y)
+			lc, isC := stripValue(cm.X).(*ssa.Call)
+			if !isK || k != 0 || !isC {
+				return false
+			}
+			bi, isBi := lc.Call.Value.(*ssa.Builtin)
+			return isBi && bi.Name() == "len"
+		})
+		r.Check(empty, fn, "returns early only without wal files", p.Pos(instrPos(ret)), "guarded by len(files) == 0", "wal recovery returns before replaying on a condition other than 'there is no older wal': the commits in them are lost")
+	})
+	if m == 0 {
+		r.Hold(fn, "returns early only without wal files", p.Pos(rec.Pos()), "no early return")
+	}
+	// 3. every entry read is set in the memtable and written to the new wal
+	var entryLoop *natLoop
+	for _, lp := range naturalLoops(rec) {
+		lp := lp
+		if lp.header == fileLoop.header || !fileLoop.body[lp.header] {
+			continue
+		}
+		entryLoop = &lp
+	}
+	if entryLoop == nil {
+		r.Undecided(fn, "every entry is replayed", "", "no loop over the entries of a wal")
+		return
+	}
+	var body *ssa.BasicBlock
+	for _, s := range entryLoop.header.Succs {
+		if entryLoop.body[s] {
+			body = s
+		}
+	}
+	for _, want := range []struct {
+		g     *ssa.Function
+		label string
+		viol  string
+	}{
+		{setFn, "every entry is set in the memtable", "an entry read from an old wal is not put into the memtable on some path: it is in the new wal only, reads miss it, and a clean Close (empty memtable) removes that wal too"},
+		{walWrite, "every entry is written to the new wal", "an entry read from an old wal is not written to the new wal on some path although the old wal is then deleted"},
+	} {
+		isIt := func(i ssa.Instruction) bool {
+			cl, ok := i.(*ssa.Call)
+			return ok && cl.Call.StaticCallee() == want.g
+		}
+		q := PathQuery{P: p, Fn: rec, Starts: []ssa.Instruction{entryLoop.header.Instrs[len(entryLoop.header.Instrs)-1]},
+			EdgeOK: func(bb *ssa.BasicBlock, i int) bool { return bb != entryLoop.header || bb.Succs[i] == body },
+			Avoid:  isIt, Target: func(i ssa.Instruction) bool { return i.Block() == entryLoop.header && instrIndex(i) == 0 }}
+		w := q.FindPath()
+		if w == nil {
+			r.Hold(fn, want.label, p.Pos(instrPos(entryLoop.header.Instrs[len(entryLoop.header.Instrs)-1])), "on every path of an iteration")
+		} else {
+			r.Viol(fn, want.label, p.Pos(instrPos(entryLoop.header.Instrs[len(entryLoop.header.Instrs)-1])), want.viol, p.describePath(w)...)
+		}
+	}
+	if bad := leftElsewhere(*entryLoop); bad != nil {
+		r.Viol(fn, "every entry of a wal is visited", p.Pos(instrPos(bad.Instrs[len(bad.Instrs)-1])), "the loop over the entries of a wal is left before they are exhausted")
+	}
+}
+
+func runLoopProgress(c *Ctx, r *RuleRun) {
+	p := c.P
+	for _, f := range p.Funcs {
+		fn := p.FnName(f)
+		for _, lp := range naturalLoops(f) {
+			h := lp.header
+			if len(h.Instrs) == 0 {
+				continue
+			}
+			// exits of the loop: conditional branches with one successor outside
+			var conds []*ssa.If
+			hasOtherExit := false
+			for b := range lp.body {
+				if len(b.Instrs) == 0 {
+					continue
+				}
+				switch last := b.Instrs[len(b.Instrs)-1].(type) {
+				case *ssa.If:
+					out := 0
+					for _, s := range b.Succs {
+						if !lp.body[s] {
+							out++
+						}
+					}
+					if out > 0 {
+						conds = append(conds, last)
+					}
+				case *ssa.Return, *ssa.Panic:
+					hasOtherExit = true
+				}
+			}
+			if len(conds) == 0 {
+				continue // for { select … } style loops are left by return/break-to-label only
+			}
+			// anything in the loop that can change state the conditions read?
+			progress := hasOtherExit
+			stored := map[*types.Var]bool{}
+			anyStore := false
+			for b := range lp.body {
+				for _, ins := range b.Instrs {
+					switch x := ins.(type) {
+					case ssa.CallInstruction:
+						if _, isBuiltin := x.Common().Value.(*ssa.Builtin); !isBuiltin {
+							progress = true // a call may change anything, block, or never return
+						}
+					case *ssa.Store:
+						anyStore = true
+						if fv, _ := fieldOfAddr(x.Addr); fv != nil {
+							stored[fv] = true
+						}
+					case *ssa.MapUpdate, *ssa.Send, *ssa.Select, *ssa.Next:
+						progress = true
+					case *ssa.UnOp:
+						if x.Op == token.ARROW {
+							progress = true
+						}
+					}
+				}
+			}
+			if !progress {
+				for _, iff := range conds {
+					if p.dependsOn(iff.Cond, func(v ssa.Value) bool {
+						switch y := v.(type) {
+						case *ssa.Phi:
+							if !lp.body[y.Block()] {
+								return false
+							}
+							for i, e := range y.Edges {
+								if lp.body[y.Block().Preds[i]] && e != ssa.Value(y) {
+									return true
+								}
+							}
+						case *ssa.UnOp:
+							if y.Op == token.MUL {
+								if fv, _ := fieldOfAddr(y.X); fv != nil && stored[fv] {
+									return true
+								}
+								if _, isAlloc := y.X.(*ssa.Alloc); isAlloc && anyStore {
+									return true
+								}
+								if _, isIdx := y.X.(*ssa.IndexAddr); isIdx && anyStore {
+									return true
+								}
+							}
+						}
+						return false
+					}) {
+						progress = true
+					}
+				}
+			}
+			r.Check(progress, fn, "loop can make progress", p.Pos(instrPos(h.Instrs[len(h.Instrs)-1])), "the loop changes something its exit condition reads (or calls out)",
+				"nothing inside this loop changes what its exit condition reads and it makes no call: once entered with the condition true it never ends, and the operation that runs it never returns")
+		}
+	}
+}
+
+func runLiveStopOnce(c *Ctx, r *RuleRun) {
+	p := c.P
+	stop := p.Fn("", "oracle", "Stop")
+	wmStop := p.Fn("pkg/watermark", "WaterMark", "Stop")
+	if stop == nil || wmStop == nil {
+		r.Undecided("-", "oracle.Stop / WaterMark.Stop", "", "anchors not found")
+		return
+	}
+	count := map[*types.Var]int{}
+	for _, cl := range callsTo(p, stop, wmStop) {
+		fv, _ := loadedField(cl.Call.Args[0])
+		count[fv]++
+	}
+	for _, name := range []string{"readMark", "commitMark"} {
+		fv := p.Field("", "oracle", name)
+		if fv == nil {
+			r.Undecided(p.FnName(stop), "stops "+name+" once", "", "field not found")
+			continue
+		}
+		r.Check(count[fv] == 1, p.FnName(stop), "stops "+name+" once", p.Pos(stop.Pos()), "one Stop call", fmtCount(count[fv])+" Stop call(s) on "+name+": a watermark that is stopped twice blocks the second caller forever (its consumer has left), one that is never stopped leaks its goroutine")
+	}
+}
+
+func fmtCount(n int) string {
+	switch n {
+	case 0:
+		return "no"
+	case 1:
+		return "one"
+	case 2:
+		return "two"
+	}
+	return "several"
+}
+
+func runConfKeepAll(c *Ctx, r *RuleRun) {
+	a := c.Txn()
+	if !a.ok(r) {
+		return
+	}
+	p := c.P
+	f := a.cleanUp
+	fn := p.FnName(f)
+	// the loop that ranges over committedTxns
+	var loop *natLoop
+	for _, lp := range naturalLoops(f) {
+		lp := lp
+		for b := range lp.body {
+			for _, ins := range b.Instrs {
+				if cl, ok := ins.(*ssa.Call); ok {
+					if bi, ok := cl.Call.Value.(*ssa.Builtin); ok && bi.Name() == "append" {
+						loop = &lp
+					}
+				}
+			}
+		}
+	}
+	if loop == nil {
+		r.Undecided(fn, "cleanup loop", p.Pos(f.Pos()), "no loop that rebuilds the list")
+		return
+	}
+	if bad := leftElsewhere(*loop); bad != nil {
+		r.Viol(fn, "whole list visited", p.Pos(instrPos(bad.Instrs[len(bad.Instrs)-1])), "the clean-up loop is left before the list is exhausted: the records after that point are dropped although their transactions committed after snapshots that are still open, and conflicts with them are missed")
+	} else {
+		r.Hold(fn, "whole list visited", p.Pos(instrPos(loop.header.Instrs[len(loop.header.Instrs)-1])), "left only through its own condition")
+	}
+	// every iteration appends unless ts <= watermark
+	isKeep := func(i ssa.Instruction) bool {
+		cl, ok := i.(*ssa.Call)
+		if !ok {
+			return false
+		}
+		bi, ok := cl.Call.Value.(*ssa.Builtin)
+		return ok && bi.Name() == "append"
+	}
+	var body *ssa.BasicBlock
+	for _, s := range loop.header.Succs {
+		if loop.body[s] {
+			body = s
+		}
+	}
+	if body == nil {
+		return
+	}
+	q := PathQuery{P: p, Fn: f, Starts: []ssa.Instruction{loop.header.Instrs[len(loop.header.Instrs)-1]}, Avoid: isKeep,
+		Target: func(i ssa.Instruction) bool { return i.Block() == loop.header && instrIndex(i) == 0 },
+		EdgeOK: func(bb *ssa.BasicBlock, i int) bool {
+			if bb == loop.header {
+				return bb.Succs[i] == body
+			}
+			if !loop.body[bb.Succs[i]] {
+				return false
+			}
+			i2, ok := bb.Instrs[len(bb.Instrs)-1].(*ssa.If)
+			if !ok {
+				return true
+			}
+			cm := canonCond(i2.Cond, i == 0)
+			if cm.Y == nil {
+				return true
+			}
+			// the legitimate reason to drop a record: its ts is at or below the read watermark
+			isTs := func(v ssa.Value) bool {
+				fv, _ := loadedField(stripValue(v))
+				return fv == a.fCtTs
+			}
+			isWm := func(v ssa.Value) bool {
+				return p.dependsOn(v, func(x ssa.Value) bool {
+					i := asInstr(x)
+					return i != nil && markCalls(p, a.fReadMark, "DoneUntil")(i)
+				})
+			}
+			if isTs(cm.X) && isWm(cm.Y) && (cm.Op == "<=" || cm.Op == "<") {
+				return false
+			}
+			if isWm(cm.X) && isTs(cm.Y) && (cm.Op == ">=" || cm.Op == ">") {
+				return false
+			}
+			return true
+		}}
+	w := q.FindPath()
+	if w == nil {
+		r.Hold(fn, "records above the watermark are kept", p.Pos(instrPos(loop.header.Instrs[len(loop.header.Instrs)-1])), "an iteration drops a record only when its timestamp is at or below readMark.DoneUntil()")
+	} else {
+		r.Viol(fn, "records above the watermark are kept", p.Pos(instrPos(loop.header.Instrs[len(loop.header.Instrs)-1])), "an iteration can drop a record without having established `ts <= read watermark`", p.describePath(w)...)
+	}
+}
+
+func asInstr(v ssa.Value) ssa.Instruction {
+	if i, ok := v.(ssa.Instruction); ok {
+		return i
+	}
+	return nil
+}
